@@ -104,3 +104,11 @@ pub assume_specification<T: PartialEq> [ <[T]>::contains ] (s: &[T], x: &T) -> (
 // Rust reference: a slice never spans more than isize::MAX bytes.
 #[verifier::external_body]
 pub proof fn axiom_slice_max(s: &[u8]) ensures s@.len() <= 0x7fff_ffff_ffff_ffff { }
+
+// common u8 classification helpers of std (so that code starting to use them stays within reach)
+pub assume_specification [ u8::is_ascii_lowercase ] (c: &u8) -> (r: bool) ensures r == (0x61 <= *c <= 0x7a);
+pub assume_specification [ u8::is_ascii_uppercase ] (c: &u8) -> (r: bool) ensures r == (0x41 <= *c <= 0x5a);
+pub assume_specification [ u8::is_ascii_alphabetic ] (c: &u8) -> (r: bool) ensures r == ((0x41 <= *c <= 0x5a) || (0x61 <= *c <= 0x7a));
+pub assume_specification [ u8::is_ascii_digit ] (c: &u8) -> (r: bool) ensures r == (0x30 <= *c <= 0x39);
+pub assume_specification [ u8::is_ascii_alphanumeric ] (c: &u8) -> (r: bool) ensures r == ((0x30 <= *c <= 0x39) || (0x41 <= *c <= 0x5a) || (0x61 <= *c <= 0x7a));
+pub assume_specification [ u8::is_ascii ] (c: &u8) -> (r: bool) ensures r == (*c < 0x80);
